@@ -3,6 +3,7 @@ package props
 import (
 	"fmt"
 	"sort"
+	"strconv"
 	"strings"
 
 	"deps.dev/util/resolve"
@@ -331,6 +332,16 @@ func (s *c19State) roundTrip(h *c19Handle) {
 		// dt.Equal(Must(ParseString(String(dt))))"), reached through the
 		// overlay's bridge package.
 		own := verifbridge.VersionAttrString(h.va)
+		if s.step%2 == 1 {
+			// Parsing is a function of the text alone: on odd steps the
+			// "confusable twin" of the text (the words of a quoted value
+			// written as separate tokens - another set, or no set at all) is
+			// parsed first; what it means is of no interest here.
+			if tw := twinText(kvs, true); tw != "" {
+				verifbridge.VersionAttrParse(tw)
+				probe(s.res, "confusable_twin_texts_parsed_first", 1)
+			}
+		}
 		back2, err := verifbridge.VersionAttrParse(own)
 		if err != nil {
 			s.bad("AttrSet:repo-writer-parse", "h%d %s: versiontest.String wrote %q, which versiontest.ParseString rejects: %v", h.id, uni.AttrString(h.va), own, err)
@@ -351,6 +362,8 @@ func (s *c19State) roundTrip(h *c19Handle) {
 		return
 	}
 	// (a) as the type of an import line of a universe
+	uni.DepTypeRotate = s.step
+	defer func() { uni.DepTypeRotate = 0 }()
 	spec := uni.Spec{Sys: resolve.NPM, Pkgs: []uni.Pkg{{Name: "pkg", Vers: []uni.Ver{{V: "1.0.0", Reqs: []uni.Req{{Name: "target", Req: "1", Type: kvs}}}}}}}
 	text := spec.SchemaText()
 	sc, err := schema.New(text, resolve.NPM)
@@ -368,6 +381,12 @@ func (s *c19State) roundTrip(h *c19Handle) {
 		gt += dt + " | "
 	}
 	gt += "target@1 2.0.0\n"
+	if s.step%2 == 1 {
+		if tw := twinText(kvs, false); tw != "" {
+			schema.ParseResolve("root 1.0.0\n\t"+tw+" | target@1 2.0.0\n", resolve.NPM)
+			probe(s.res, "confusable_twin_texts_parsed_first", 1)
+		}
+	}
 	g, err := schema.ParseResolve(gt, resolve.NPM)
 	if err != nil || len(g.Edges) != 1 {
 		s.bad("Type:graph-text-parse", "schema.ParseResolve failed on %q: %v", gt, err)
@@ -378,8 +397,55 @@ func (s *c19State) roundTrip(h *c19Handle) {
 	}
 }
 
+// twinText writes the set like the text form does, except that a value of
+// several plain words is written without its quotes: a different text, which
+// denotes another set or none. Empty if the set has no such value.
+func twinText(kvs []uni.KV, ver bool) string {
+	var items []string
+	twin := false
+	for _, kv := range kvs {
+		var name string
+		flag := kv.K < 0
+		if ver {
+			name = strings.ToLower(version.AttrKey(kv.K).String())
+		} else {
+			name = strings.ToLower(dep.AttrKey(kv.K).String())
+			flag = flag || dep.AttrKey(kv.K) == dep.Selector
+		}
+		if flag {
+			items = append(items, name)
+			continue
+		}
+		ws := strings.Split(kv.V, " ")
+		plain := len(ws) > 1
+		for _, w := range ws {
+			if w == "" || strings.ContainsAny(w, "\"`\\|#@") {
+				plain = false
+			}
+		}
+		if plain && !twin {
+			twin = true
+			items = append(items, name+" "+kv.V)
+		} else if kv.V == "" || strings.ContainsAny(kv.V, " \"`\\") {
+			items = append(items, name+" "+strconv.Quote(kv.V))
+		} else {
+			items = append(items, name+" "+kv.V)
+		}
+	}
+	if !twin {
+		return ""
+	}
+	return strings.Join(items, " ")
+}
+
 var c19Atoms = []string{"a", "b1", `"`, `\\`, "'", "=", "<", "3.7", "é", ",", "x-y", "(", "%", "$",
-	"`", "~", "!", "*", "?", "[", "]", "{", "}", "&", "+", "^", "/", ";", ">", "-", "_", ".", "0", "A", "世"}
+	"`", "~", "!", "*", "?", "[", "]", "{", "}", "&", "+", "^", "/", ";", ">", "-", "_", ".", "0", "A", "世",
+	// words that are also names of flags and keys of the text form
+	"dev", "opt", "test", "scope", "knownas", "selector", "environment", "Dev", "blocked", "tags", "registries"}
+
+// c19Tails are ends of values that, read as separate tokens, would be a flag
+// or a key with its value.
+var c19Tails = []string{"dev", "opt", "test", "selector", "scope peer", "knownas a", "environment os", "dev opt", "blocked", "tags latest"}
 
 // drawValue draws either a fixed value or one composed of 1-4 words of 1-3
 // atoms each (quotes, backslashes, punctuation, non-ASCII), joined by single
@@ -398,6 +464,10 @@ func drawValue(t *kernel.Tape) string {
 		words = append(words, w)
 	}
 	v := strings.Join(words, " ")
+	if t.Bool(1, 6) {
+		// a value whose tail reads like further items of the text form
+		v = words[0] + " " + c19Tails[t.Choose(len(c19Tails))]
+	}
 	switch t.Choose(12) {
 	case 9:
 		v = " " + v
